@@ -75,6 +75,20 @@ pub fn front(src: &str) -> FrontObs {
 /// A program around named types in declaration positions: parameters and environment values typed by
 /// a record, a variant, an alias, or a chain of aliases (ending in a primitive, a record, a list, or
 /// in nothing), used in amounts, datums and property accesses.
+/// Names that meet: a spread source spelled like a field of the constructed case, an asset whose
+/// definition is an expression over environment values, parties or policies.
+pub fn name_meeting_probe(r: &mut Rng) -> String {
+    match r.below(4) {
+        0 => "party Owner;\ntype State {\n    owner: Bytes,\n    state: Int,\n}\ntx t() {\n    input state {\n        from: Owner,\n        datum_is: State,\n        min_amount: Ada(1),\n    }\n    output {\n        to: Owner,\n        amount: Ada(1),\n        datum: State { owner: 0x00, ...state },\n    }\n}\n".to_string(),
+        1 => "party Owner;\ntype Link {\n    next: Int,\n    prev: Int,\n}\ntx relink(prev: Link) {\n    input src {\n        from: Owner,\n        min_amount: Ada(1),\n    }\n    output {\n        to: Owner,\n        amount: Ada(1),\n        datum: Link { next: 7, ...prev },\n    }\n}\n".to_string(),
+        _ => {
+            let pol = *r.pick(&["concat(0xAB, pol)", "(0xAB + pol)", "pol", "Pp", "concat(Pp, 0x01)", "concat(0xAB, Owner)"]);
+            let name = *r.pick(&["0xCD", "\"TK\"", "concat(0x01, pol)"]);
+            format!("party Owner;\nenv {{\n    pol: Bytes,\n}}\npolicy Pp = 0xABCDEF;\nasset T = {}.{};\ntx t() {{\n    input src {{\n        from: Owner,\n        min_amount: T(1),\n    }}\n    output {{\n        to: Owner,\n        amount: T(1),\n    }}\n}}\n", pol, name)
+        }
+    }
+}
+
 pub fn type_position_probe(r: &mut Rng) -> String {
     let mut s = String::from("party Alice;\n");
     s.push_str("type Settings {\n    fee: Int,\n    tag: Bytes,\n}\n");
@@ -302,7 +316,14 @@ pub fn mutate(r: &mut Rng, p: &mut Prog) -> String {
             let t = &mut p.txs[ti];
             if let Some(first) = t.inputs.first().cloned() {
                 let mut copy = first.clone();
-                copy.name = match r.below(3) {
+                copy.name = match r.below(4) {
+                    // the query name of the collateral block (reserved once the transaction has one)
+                    3 => {
+                        if t.collateral.is_empty() {
+                            t.collateral.push((first.from.clone(), None, None));
+                        }
+                        if r.chance(1, 2) { "collateral".to_string() } else { "Collateral".to_string() }
+                    }
                     0 => first.name.clone(),
                     1 => first.name.to_uppercase(),
                     _ => {
@@ -721,7 +742,7 @@ pub fn run(ctx: &mut Ctx, focus: Focus) {
                 }
                 s.push_str(&format!("policy P{} = 0xABCDEF;\ntx t() {{\n    output {{\n        to: P0,\n        amount: Ada(1),\n    }}\n}}\n", depth - 1));
                 s
-            } else if r.chance(1, 2) { policy_probe(&mut r) } else { type_position_probe(&mut r) };
+            } else { match r.below(3) { 0 => policy_probe(&mut r), 1 => type_position_probe(&mut r), _ => name_meeting_probe(&mut r) } };
             let obs = front(&text);
             let fac = if obs.parse_ok && !obs.analysis_panic { facade(&text) } else { 1 };
             let bad_tx = obs.txs.iter().find(|t| t.kind != 0 && t.kind != 9);
@@ -776,6 +797,29 @@ pub fn run(ctx: &mut Ctx, focus: Focus) {
                     (Some(a), Some(b), Some(c)) if a.bytes == b.bytes && b.bytes == c.bytes => {}
                     _ => impl_violations.push(serde_json::json!({"index": -1, "ids": [182], "what": "the TII file differs between processes (or is not emitted)", "file": f.to_string_lossy()})),
                 }
+            }
+        }
+    }
+    if focus == Focus::C17 {
+        for (k, n_terms) in [4usize, 12, 16, 24, 40].into_iter().enumerate() {
+            let params: Vec<String> = (0..n_terms).map(|i| format!("p{}: Int", i)).collect();
+            let sum: Vec<String> = (0..n_terms).map(|i| format!("p{}", i)).collect();
+            let text = format!(
+                "party Payer;\nparty Payee;\ntx payroll({}) {{\n    locals {{\n        total: {},\n    }}\n    input source {{\n        from: Payer,\n        min_amount: Ada(total),\n    }}\n    output {{\n        to: Payee,\n        amount: Ada(total),\n    }}\n    output {{\n        to: Payer,\n        amount: source - Ada(total) - fees,\n    }}\n}}\n",
+                params.join(", "), sum.join(" + "));
+            let obs = front(&text);
+            let lowered = obs.txs.first().and_then(|t| t.bytes.clone());
+            let shipped = emit_tii(&scratch, &format!("deep{}", k), &text).and_then(|t| {
+                let content = t.json["transactions"]["payroll"]["tir"]["content"].as_str().unwrap_or("").to_string();
+                hex::decode(content).ok()
+            });
+            let decodes = shipped.as_ref().map(|b| tx3_tir::encoding::from_bytes(b, tx3_tir::encoding::TirVersion::V1Beta0).is_ok()).unwrap_or(false);
+            let reported: Vec<String> = shipped.as_ref().and_then(|b| tx3_tir::encoding::from_bytes(b, tx3_tir::encoding::TirVersion::V1Beta0).ok())
+                .map(|any| match any { tx3_tir::encoding::AnyTir::V1Beta0(x) => tx3_tir::reduce::find_params(&x).keys().cloned().collect() }).unwrap_or_default();
+            let ok = obs.accepted && lowered.is_some() && shipped == lowered && decodes && (0..n_terms).all(|i| reported.contains(&format!("p{}", i)));
+            if !ok {
+                impl_violations.push(serde_json::json!({"index": -1, "ids": [176], "what": "the IR shipped for a sum of many parameters does not decode to what lowering produced (or does not report every parameter)",
+                    "terms": n_terms, "accepted": obs.accepted, "shipped_equals_lowered": shipped == lowered, "decodes": decodes, "source": text}));
             }
         }
     }
